@@ -278,12 +278,29 @@ class Composite(behaviour.Behaviour, abc.ABC):
         Args:
             child: child to delete
             replacement: child to insert
+
+        Raises:
+            TypeError: if the replacement is not an instance of :class:`~py_trees.behaviour.Behaviour`
+            RuntimeError: if the replacement already has a parent
         """
         self.logger.debug(
             "%s.replace_child()[%s->%s]"
             % (self.__class__.__name__, child.name, replacement.name)
         )
         child_index = self.children.index(child)
+        # validate the replacement before anything is removed
+        if not isinstance(replacement, behaviour.Behaviour):
+            raise TypeError(
+                "children must be behaviours, but you passed in {}".format(
+                    type(replacement)
+                )
+            )
+        if replacement.parent is not None:
+            raise RuntimeError(
+                "behaviour '{}' already has parent '{}'".format(
+                    replacement.name, replacement.parent.name
+                )
+            )
         self.remove_child(child)
         self.insert_child(replacement, child_index)
         child.parent = None
@@ -313,9 +330,23 @@ class Composite(behaviour.Behaviour, abc.ABC):
         Args:
             child: child to insert
 
+        Raises:
+            TypeError: if the child is not an instance of :class:`~py_trees.behaviour.Behaviour`
+            RuntimeError: if the child already has a parent
+
         Returns:
             uuid.UUID: unique id of the child
         """
+        if not isinstance(child, behaviour.Behaviour):
+            raise TypeError(
+                "children must be behaviours, but you passed in {}".format(type(child))
+            )
+        if child.parent is not None:
+            raise RuntimeError(
+                "behaviour '{}' already has parent '{}'".format(
+                    child.name, child.parent.name
+                )
+            )
         self.children.insert(0, child)
         child.parent = self
         return child.id
@@ -330,9 +361,23 @@ class Composite(behaviour.Behaviour, abc.ABC):
             child (:class:`~py_trees.behaviour.Behaviour`): child to insert
             index (:obj:`int`): index to insert it at
 
+        Raises:
+            TypeError: if the child is not an instance of :class:`~py_trees.behaviour.Behaviour`
+            RuntimeError: if the child already has a parent
+
         Returns:
             uuid.UUID: unique id of the child
         """
+        if not isinstance(child, behaviour.Behaviour):
+            raise TypeError(
+                "children must be behaviours, but you passed in {}".format(type(child))
+            )
+        if child.parent is not None:
+            raise RuntimeError(
+                "behaviour '{}' already has parent '{}'".format(
+                    child.name, child.parent.name
+                )
+            )
         self.children.insert(index, child)
         child.parent = self
         return child.id
